@@ -10,6 +10,9 @@ const Enabled = false
 // Event is a no-op without the verif build tag.
 func Event(point string, kv ...any) {}
 
+// Note is a no-op without the verif build tag.
+func Note(point string, kv ...any) {}
+
 // Yield is a no-op without the verif build tag.
 func Yield(point string) {}
 
